@@ -109,6 +109,38 @@ theorem gen_formats :
     Gen.RiffConsts.imapFormats = ["iiihhii"] ∧ Gen.RiffConsts.mmapFormats = ["hhiiiii", "i", "i", "h", "h", "i"] ∧
     Gen.RiffConsts.chunkFormats = ["cccc", "i"] := by decide
 
+/-! (h) the fixed-offset readers of the model ARE the generic reader over the field layouts regenerated from the
+    Python source on every run (offset, width, signedness of every `struct.unpack` in imap.py / mmap.py) -/
+
+theorem imap_reader_is_generated_layout (d : Bytes) (o : Order) :
+    parseImap d o =
+      (if d.length ≠ 24 then .error .struct else
+       match Layout.readLayout o d 0 Gen.RiffLayouts.imap with
+       | .ok [a, b, c, e, f, g, _] => .ok ⟨a, b, c, e, f, g⟩
+       | .ok _ => .error .other
+       | .error e => .error e) := parseImap_eq_layout d o
+
+theorem mmap_entry_reader_is_generated_layout (d : Bytes) (off : Nat) (o : Order) :
+    parseMmapEntry d off o =
+      (match parseChunkId d off o with
+       | .error e => .error e
+       | .ok id =>
+         match Layout.readLayout o d off Gen.RiffLayouts.mmapEntry with
+         | .ok [size, offs, flag, unus, nxt] => .ok ⟨id, size, offs, flag, unus, nxt⟩
+         | .ok _ => .error .other
+         | .error e => .error e) := parseMmapEntry_eq_layout d off o
+
+theorem mmap_header_reader_is_generated_layout (d : Bytes) (o : Order) :
+    parseMmap d o =
+      (if (slice d 0 24).length ≠ 24 then .error .struct else
+       match Layout.readLayout o d 0 Gen.RiffLayouts.mmapHeader with
+       | .ok [a, b, c, u, j, om, ff] =>
+         (match parseMmapEntries d o u.toNat 24 with
+          | .ok rs => .ok ⟨a, b, c, u, j, om, ff, rs⟩
+          | .error e => .error e)
+       | .ok _ => .error .other
+       | .error e => .error e) := parseMmap_eq_layout d o
+
 /-! ### non-vacuity: the hypotheses are met by concrete, non-trivial objects -/
 
 def exChunks : List SChunk := [⟨[0x69, 0x6d, 0x61, 0x70], [1, 2, 3]⟩, ⟨[0x80, 0xff, 0x00, 0x7b], []⟩, ⟨[0x41, 0x42, 0x43, 0x44], [9]⟩]
